@@ -120,11 +120,15 @@ def gen_topology(rng, level):
             lock = _dev("bd_lock", rng.randint(1, 3), "pulse", "playfield", "", **t)
         devices.append(lock)
     vuk = None
-    if level >= 1 and kind != "direct" and not chain3 and rng.random() < 0.3:
+    if level >= 1 and kind != "direct" and not chain3 and rng.random() < (0.6 if lane_slots == 2 else 0.3):
         # a second source feeding the plunger lane (playfield VUK): overlapping ejects towards a 1-ball device
         t = timing()
         vuk = _dev("bd_vuk", 1, "pulse", "bd_plunger", "", **t)
         devices.append(vuk)
+        if lane_slots == 2:
+            # two sources, two slots: a counting window in which both expected balls can settle together
+            pl = next(d for d in devices if d["name"] == "bd_plunger")
+            pl["entrance_count_delay_ms"] = max(pl["entrance_count_delay_ms"], 500)
     if balls >= 2 and rng.random() < 0.7:
         mb = {"ball_count": rng.randint(2, min(3, balls)), "shoot_again_s": rng.choice([0, 0, 5, 20])}
         if lock and rng.random() < 0.5:
@@ -214,9 +218,23 @@ def gen_ops(rng, topo, n_ops, rests):
                 ["ev", "ev_add_ball", round(et_src + rng.uniform(0.2, 0.9 * et_pl), 2)], ["wait", 60.0], ["rest"],
                 ["ev", "ev_req_plunger", 0.5], ["wait", 45.0]]
 
+    vuk_dev = next((d for d in topo["devices"] if d["name"] == "bd_vuk"), None)
+    can_twin_feed = vuk_dev is not None and plunger_dev is not None and plunger_dev["slots"] == 2
+
+    def twin_feed():
+        """Two-ball launcher fed by trough and playfield VUK: both send a ball at the same moment, so both expected balls
+        settle in the (empty, waiting) launcher within one counting window."""
+        tr = rng.choice([0.2, 0.5])
+        return [["ev", "ev_add_ball", 0.5], ["wait", 12.0], ["vuk", 0.5, tr],
+                ["ev", "ev_add_ball", round(tr + vuk_dev["entrance_count_delay_ms"] / 1000.0 +
+                                            rng.choice([0.0, 0.0, 0.02, 0.1]), 3)],
+                ["wait", 60.0], ["rest"]]
+
     can_skip_request = slow_lane and plunger_dev is not None and plunger_dev["target"] == "playfield"
     ops = [["wait", rng.choice([1.0, 3.0])]]
-    if can_skip_request and rng.random() < 0.3:
+    if can_twin_feed and rng.random() < 0.85:
+        ops += twin_feed()
+    elif can_skip_request and rng.random() < 0.3:
         ops += skip_request()
     elif any(d["name"] == "bd_stage" for d in topo["devices"]) and rng.random() < 0.4:
         ops += chain_lost()
@@ -275,6 +293,8 @@ def gen_ops(rng, topo, n_ops, rests):
         bursts += ["twin_lock", "twin_lock"]    # two balls enter the lock (by whatever lanes) close together
     if can_skip_request:
         bursts += ["skip_request"]
+    if can_twin_feed:
+        bursts += ["twin_feed", "twin_feed"]
     if "bd_stage" in names:
         bursts += ["chain_lost"]
         bursts += ["chain_double", "chain_double"]   # a further request while the launcher's ball is in flight
@@ -314,6 +334,8 @@ def gen_ops(rng, topo, n_ops, rests):
                 ops += chain_lost()
             elif b == "skip_request":
                 ops += skip_request()
+            elif b == "twin_feed":
+                ops += twin_feed()
             elif b == "chain_double":
                 ops.append(["ev", rng.choice(["ev_add_ball", "ev_req_stage"]), rng.choice(DTS)])
                 for _ in range(rng.randint(1, 2)):
@@ -364,6 +386,9 @@ def gen_phys(rng, topo, fault_level):
     phys = {"seed": rng.randrange(1 << 30), "transit": [0.05, rng.choice([0.3, 0.8, 1.4])],
             "pf_hit_prob": rng.choice([0.0, 0.5, 0.9, 1.0]),
             "plunge_delay": rng.choice([[0.3, 2.0], [0.5, 6.0], [2.0, 40.0]]), "faults": {}}
+    twin = any(d["name"] == "bd_vuk" for d in topo["devices"]) and \
+        any(d["name"] == "bd_plunger" and d["slots"] == 2 for d in topo["devices"])
+    benign_twin = twin and rng.random() < 0.6      # two-source launcher: mostly fault free (see twin_feed burst)
     # handlers which hold balldevice_<dev>_ball_eject_attempt (a queue event) for a while, like diverters/mode code do
     phys["holds"] = {}
     by_name = {d["name"]: d for d in topo["devices"]}
@@ -400,6 +425,9 @@ def gen_phys(rng, topo, fault_level):
                     else:
                         seq.append("ok")
                 phys["faults"][d["name"]] = seq
+    if benign_twin:
+        phys["faults"] = {}
+        phys["holds"] = {}
     return phys
 
 
@@ -810,7 +838,8 @@ def run_world_case(case, horizon):
                 elif k == "vuk":
                     vm.advance(float(op[1]))
                     if "bd_vuk" in world.devs:
-                        world.move_loose_ball("bd_vuk", kind="lock_shots")
+                        world.move_loose_ball("bd_vuk", transit=float(op[2]) if len(op) > 2 else None,
+                                              kind="lock_shots")
                 elif k == "pf":
                     vm.advance(float(op[1]))
                     world.pf_hit()
@@ -981,7 +1010,18 @@ def evaluate_rest(mon, world, rested, horizon, trace):
                 # the known restore-path weakness: the replacement was re-requested at a device nothing feeds (its
                 # request is parked there) or the lost ball was heading for a mechanical device in its skip wait
                 dead_end_request = any(devs[x]._ball_requests and not sources.get(x) for x in devs)
-                if mon.missing_events and not mech and not dead_end_request:
+                # devices which reported a ball missing although every ball they kicked physically arrived on time
+                # (any physical loss anywhere may be matched to another device's expected ball - one switch cannot
+                # tell balls apart - so this needs a case in which every kick of every device arrived on time)
+                kicks = [oc for (_t, _dv, oc, _by) in world.launch_log]
+                phantom_loss = bool(kicks) and all(oc == "ok" for oc in kicks) and not world.service_log
+                if mon.missing_events and not mech and phantom_loss:
+                    sig += "_after_ball_reported_missing_that_was_never_lost"
+                    if any(k == "failed_retry" for _t, k in mon.dev_events.get(n, [])):
+                        # the stuck device itself reported one of its (physically fine) ejects as failed: a ball from a
+                        # second source arrived during its eject to the playfield and was taken for the returning ball
+                        sig += "_arrival_during_eject_taken_for_returning_ball"
+                elif mon.missing_events and not mech and not dead_end_request:
                     sig += "_after_lost_ball_path_restore"  # a different bookkeeping problem in the restore path
                 elif mon.missing_events:
                     sig += "_after_lost_ball_handling"      # cancel_path / restore-path bookkeeping
